@@ -769,7 +769,7 @@ func (s *Server) handleResponse(response *agent.Response) error {
 		s.begin = nil
 		s.points = nil
 	default:
-		panic(fmt.Sprintf("unexpected response message %T", msg))
+		return fmt.Errorf("unexpected response message %T", msg)
 	}
 	return nil
 }
